@@ -38,12 +38,26 @@ func TestDifferential(t *testing.T) {
 	if err != nil {
 		t.Fatal(err)
 	}
-	known := map[string]string{"main": "", "run": "", "chain": "", "emit": "", "base.tag": "", "structs": ""}
+	known := map[string]string{"main": "", "run": "", "chain": "", "emit": "", "base.tag": "", "structs": "", "objects": "", "firstChooser.choose": "", "lastChooser.choose": "", "describePair": ""}
 	_, _, rep, err := Normalize(fset, files, pkg, info, known, check)
 	if err != nil {
 		t.Fatalf("normalise: %v", err)
 	}
 	t.Logf("expanded=%v removed=%v skipped=%v rounds=%d split=%v", rep.Expanded, rep.Removed, rep.Skipped, rep.Rounds, rep.Split)
+	wantSplit := map[string]bool{"interface method choose(parameter #0)": false, "describePair(parameter p)": false}
+	for _, sp := range rep.Split {
+		if _, ok := wantSplit[sp]; ok {
+			wantSplit[sp] = true
+		}
+	}
+	for k, seen := range wantSplit {
+		if !seen {
+			t.Errorf("expected parameter object to be taken apart: %s (got %v)", k, rep.Split)
+		}
+	}
+	if rep.Expanded["(method value) objects.tag"] == 0 {
+		t.Errorf("expected the method value tag to be inlined, got %v", rep.Expanded)
+	}
 	if len(rep.Split) < 2 {
 		t.Errorf("expected the tracker and the verdict variables to be split, got %v", rep.Split)
 	}
